@@ -2,6 +2,16 @@
 """writes MANIFEST.json from the table below (kept in one place so that it stays valid)"""
 import json
 CHECKS = {
+ "C19": dict(
+   text="Proof about a Lean model of OdeSystem.__getitem__ and of Python's iteration protocol: an integer index addresses the n samples "
+        "like a sequence (0 <= i < n -> i, -n <= i < 0 -> n + i, else IndexError), iteration visits 0..n-1 once in order, and lookup by time "
+        "without dense output returns an index minimising |t_i - q| for EVERY recorded grid (forward, backward, continued, non-uniform) and "
+        "every query. Tied to the code by exhaustive index sweeps [-n-2, n+2] (int and numpy integers), bit-exact nearest/slice queries "
+        "and whole-run slices on real recorded grids; the dense branch is compared with the dense solution. Slice ranges are modelled and "
+        "compared, not proved.",
+   note="Trusted: Lean kernel, standard axioms, harness. numpy's argmin / negative indexing semantics are modelled.",
+   technique="Lean 4 proof (case analysis; fold invariant for argmin) + exhaustive/bit-exact differential correspondence",
+   design="5 (C19)"),
  "C10": dict(
    text="Proof. Splitting schemes: on the regenerated tables every stage is a shear, the schemes are palindromic and consistent (verified "
         "computation); the Lean model of the coded step equals the composition of its drift/kick stage maps; for EVERY separable autonomous "
